@@ -51,8 +51,9 @@ def run(tier):
         # one gap at a time (thorough): every gap x every recipe for a sample of derivations
         if tier == "thorough":
             ex = progs.expand_all(table, behs[:300], core.seed(), ["none"])
+            b300, ex = progs.drop_skipped(behs[:300], ex)
             tasks, metas = [], []
-            for b, e in zip(behs[:300], ex):
+            for b, e in zip(b300, ex):
                 gaps = [k for k, g in enumerate(e["gaps"]) if g in ("free", "sep")]
                 lay = ["none"] + ["gap:%d:%s" % (g, rec) for g in gaps for rec in recipes if rec not in ("none",)]
                 metas.append((b, lay))
